@@ -58,6 +58,9 @@ type PacketSpec struct {
 	// ArbSeq: sequence numbers are an arbitrary function of (k, id) - repeats, jumps and
 	// backward steps included (only meaningful on reliable transports)
 	ArbSeq bool
+	// Wide: every 17th packet has the maximum payload length and every 19th the minimum, the
+	// markers follow no frame pattern, timestamps jitter around their slope, backward steps included
+	Wide bool
 }
 
 func (ps *PacketSpec) seq(k, id int) uint16 {
@@ -76,6 +79,19 @@ func (ps *PacketSpec) seq(k, id int) uint16 {
 // Make builds packet (k, id), k 1-based media index, id 1-based.
 func (ps *PacketSpec) Make(k, id int, pt uint8) *rtp.Packet {
 	n := 12 + (id*37+k*11)%(ps.MaxPL-12)
+	marker := id%3 == 0
+	ts := ps.TS0[k] + uint32(id)*3000
+	if ps.Wide {
+		switch {
+		case id%17 == 0:
+			n = ps.MaxPL
+		case id%19 == 0:
+			n = 12
+		}
+		h := uint32(id)*2654435761 + uint32(k)*97
+		marker = (h>>9)&3 == 0
+		ts += (h>>12)%9000 - 4500
+	}
 	pl := make([]byte, n)
 	pl[0] = 0x41 // H264: non-IDR slice; opaque for other formats
 	pl[1] = byte(k)
@@ -89,9 +105,9 @@ func (ps *PacketSpec) Make(k, id int, pt uint8) *rtp.Packet {
 		Header: rtp.Header{
 			Version:        2,
 			PayloadType:    pt,
-			Marker:         id%3 == 0,
+			Marker:         marker,
 			SequenceNumber: ps.seq(k, id),
-			Timestamp:      ps.TS0[k] + uint32(id)*3000,
+			Timestamp:      ts,
 			SSRC:           0x1234ABCD,
 		},
 		Payload: pl,
